@@ -61,6 +61,11 @@ func (m *limitMon) Hash() uint64 {
 }
 
 func (m *limitMon) OnEvent(w *vrt.World, ev *vrt.Event) {
+	if m.out == nil && ev.T != nil && ev.T.Lib && ev.Ch != nil && ev.Ch != m.in && (ev.Kind == vrt.EvSend || ev.Kind == vrt.EvClose) {
+		// mode "outputs": the discipline may emit before anybody has asked for the
+		// channel; the only channel it sends on or closes is its output
+		m.out = ev.Ch
+	}
 	switch {
 	case ev.Kind == vrt.EvClose && ev.Ch == m.in:
 		m.inClosed = true
@@ -192,8 +197,28 @@ func newLimit(c Cfg, w *vrt.World) *explore.Instance {
 			newErr = err
 			return
 		}
-		out := d.Output()
-		m.out = vrt.NameChan(out, "out")
+		var out <-chan int
+		getOut := func() {
+			// Mode "outputs": nobody has called Output() yet; every consumer obtains the
+			// channel itself, concurrently with the others (ordinary use: several
+			// goroutines ranging over d.Output())
+			o := d.Output()
+			st := vrt.NameChan(o, "out")
+			if m.out == nil {
+				m.out = st
+			}
+			if out == nil {
+				out = o
+			}
+			if o != out || st != m.out {
+				m.f.fail("C12", "Output() returned a channel other than the one the discipline writes to (or two calls returned different channels)")
+			}
+		}
+		if c.Mode != "outputs" {
+			getOut()
+		} else {
+			vrt.Spawn("observer", func() { getOut() })
+		}
 		if !(c.Mode == "prefill" && capIn >= total) {
 			vrt.Spawn("producer", func() {
 				for i := 0; i < total; i++ {
@@ -211,6 +236,9 @@ func newLimit(c Cfg, w *vrt.World) *explore.Instance {
 		}
 		vrt.Spawn("consumer", func() {
 			n := 0
+			if c.Mode == "outputs" {
+				getOut()
+			}
 			for {
 				vrt.Mark(uint64(n) + 100)
 				if p := delays[vrt.Choose(len(delays))]; p > 0 {
